@@ -439,7 +439,7 @@ pub fn check(tier: Tier) -> i32 {
 	let opt = OptSet::base("L3-tinyblocks").levels(3).tiny_blocks();
 	// (number of keys, program length, max reversals)
 	let plans: Vec<(usize, usize, usize)> =
-		if tier == Tier::Quick { vec![(2, 5, 3), (3, 4, 2)] } else { vec![(2, 6, 3), (3, 5, 3), (4, 4, 2)] };
+		if tier == Tier::Quick { vec![(2, 5, 3), (3, 3, 2)] } else { vec![(2, 6, 3), (3, 5, 3), (4, 4, 2)] };
 	let mut evaluations = 0u64;
 	let mut transitions = 0u64;
 	let mut nontrivial = 0u64;
